@@ -30,6 +30,8 @@ def run_one(m):
             return res
         for exp in m["expect"]:
             pid, rule = exp.split(":")
+            if ONLY_PROP and pid != ONLY_PROP:
+                continue
             tier = m.get("tier", "quick")
             rc, out = sh("./check %s --tier %s" % (pid, tier), cwd=VERIF, env={"VERIF_REPO": wt, "VERIF_NO_EVIDENCE": "1"})
             rules = re.findall(r"^\S+: \[([\w-]+)\] ", out, re.M)
@@ -67,7 +69,14 @@ def run_benign(m):
     return res
 
 
+ONLY_PROP = None
+
+
 def main():
+    global ONLY_PROP
+    for a in sys.argv[1:]:
+        if a.startswith("--only-property="):
+            ONLY_PROP = a.split("=")[1]
     if "--benign" in sys.argv:
         cat = json.load(open(os.path.join(VERIF, "selftest", "benign.json")))
         with ThreadPoolExecutor(max_workers=6) as ex:
@@ -95,7 +104,8 @@ def main():
             bad += 1
             print("MISS  %-34s %s" % (r["name"], r.get("error") or {k: v["rules"] for k, v in r["results"].items() if not v["fired"]}))
     print("%d/%d mutants detected by every expected rule" % (len(results) - bad, len(results)))
-    json.dump(results, open(os.path.join(VERIF, "selftest", "last_run.json"), "w"), indent=1)
+    if not ONLY_PROP:
+        json.dump(results, open(os.path.join(VERIF, "selftest", "last_run.json"), "w"), indent=1)
     return 1 if bad else 0
 
 
